@@ -279,7 +279,7 @@ func (e *symEnv) stmts(list []ast.Stmt, where string) []string {
 								good = false
 								break
 							}
-							gs = append(gs, fmt.Sprintf("DGuard %s %v %s", qfull(l.p), l.neg, r))
+							gs = append(gs, fmt.Sprintf("DGuard %s %v (%s)", qfull(l.p), l.neg, r))
 						}
 						if good {
 							out = append(out, gs...)
@@ -300,7 +300,7 @@ func (e *symEnv) stmts(list []ast.Stmt, where string) []string {
 						lits = append(lits, l)
 					}
 					if good {
-						g := fmt.Sprintf("DGuard %s %v %s", qfull(lits[len(lits)-1].p), lits[len(lits)-1].neg, r)
+						g := fmt.Sprintf("DGuard %s %v (%s)", qfull(lits[len(lits)-1].p), lits[len(lits)-1].neg, r)
 						for k := len(lits) - 2; k >= 0; k-- {
 							g = fmt.Sprintf("DIf %s %v [%s]", qfull(lits[k].p), lits[k].neg, g)
 						}
@@ -384,6 +384,11 @@ func genDecisionSrc() {
 	df := parseNoComments(filepath.Join(*repo, "decorator/decorator.go"))
 	fmt.Fprintf(&b, "Definition gotypes_resolveident_src : list dstmt :=\n  %s.\n\n", decisionOf(gt, "DecoratorResolver", "ResolveIdent", "gotypes.ResolveIdent"))
 	fmt.Fprintf(&b, "Definition goast_resolveident_src : list dstmt :=\n  %s.\n\n", decisionOf(ga, "DecoratorResolver", "ResolveIdent", "goast.ResolveIdent"))
-	fmt.Fprintf(&b, "Definition resolvepath_src : list dstmt :=\n  %s.\n", decisionOf(df, "fileDecorator", "resolvePath", "decorator.resolvePath"))
+	fmt.Fprintf(&b, "Definition resolvepath_src : list dstmt :=\n  %s.\n\n", decisionOf(df, "fileDecorator", "resolvePath", "decorator.resolvePath"))
+	// the two package-name resolvers of the library: pure decision programs over their map
+	gu := parseNoComments(filepath.Join(*repo, "decorator/resolver/guess/resolver.go"))
+	si := parseNoComments(filepath.Join(*repo, "decorator/resolver/simple/resolver.go"))
+	fmt.Fprintf(&b, "Definition guess_resolvepackage_src : list dstmt :=\n  %s.\n\n", decisionOf(gu, "RestorerResolver", "ResolvePackage", "guess.ResolvePackage"))
+	fmt.Fprintf(&b, "Definition simple_resolvepackage_src : list dstmt :=\n  %s.\n", decisionOf(si, "RestorerResolver", "ResolvePackage", "simple.ResolvePackage"))
 	writeIfChanged("DecisionSrc.v", b.String())
 }
